@@ -3,9 +3,87 @@
    codegen/handlers/process_attributes_types.py, formats/dataclass/client.py);
    specification: Spec/WsdlSpec.v (`expected`, hand-written from WSDL 1.1 / SOAP 1.1). *)
 From Coq Require Import NArith List Bool.
-From XV Require Import Base.Str Base.Eqb Spec.WsdlSpec Model.Wsdl Model.WsdlCorr Proofs.WsdlClient.
+From XV Require Import Base.Str Base.Eqb Spec.WsdlSpec Model.Wsdl Model.WsdlCorr Proofs.WsdlClient
+  Proofs.WsdlRefute Proofs.WsdlTheorem.
 Import ListNotations.
 Open Scope N_scope.
+
+(* ---- generation ---- *)
+(* mapper_matches te d :  option_map (final_shapes te) (map_definitions d) = Some (expected te d)
+   i.e. generation succeeds and the services the generated code publishes (DefinitionsMapper,
+   then ClassValidator keeping the last of equally named classes, then the resolution of
+   types and namespaces by the rest of the pipeline) carry exactly the style, location,
+   transport, soapAction and the input/output envelope shapes WSDL 1.1 / SOAP 1.1 prescribe.
+   `te` lists the global simple types of the schemas. *)
+
+(* full strength (every document of the fragment): FALSE of the faithful model ... *)
+Theorem C17_mapper_matches_expected_refuted : ~ mapper_matches_statement.
+Proof. exact mapper_matches_statement_refuted. Qed.
+Print Assumptions C17_mapper_matches_expected_refuted.
+
+(* ... with one witness per guard clause, each violating that clause only
+   (known findings C17-F1 .. F9, F11; reproduced on the real code by every run) *)
+Theorem C17_clause1_header_after_body_refuted :
+  wf_definitions witness1 = true /\ findings [] witness1 = [[1%nat]] /\ names_distinct [] witness1 = true
+  /\ no_shadow witness1 = true /\ ~ mapper_matches [] witness1.
+Proof. exact clause1_refuted. Qed.
+Theorem C17_clause2_rpc_response_name_refuted :
+  wf_definitions witness2 = true /\ findings [] witness2 = [[2%nat]] /\ names_distinct [] witness2 = true
+  /\ no_shadow witness2 = true /\ ~ mapper_matches [] witness2.
+Proof. exact clause2_refuted. Qed.
+Theorem C17_clause3_empty_soapaction_refuted :
+  wf_definitions witness3 = true /\ findings [] witness3 = [[3%nat]] /\ names_distinct [] witness3 = true
+  /\ no_shadow witness3 = true /\ ~ mapper_matches [] witness3.
+Proof. exact clause3_refuted. Qed.
+Theorem C17_clause4_style_undeclared_refuted :
+  wf_definitions witness4 = true /\ findings [] witness4 = [[4%nat]] /\ names_distinct [] witness4 = true
+  /\ no_shadow witness4 = true /\ ~ mapper_matches [] witness4.
+Proof. exact clause4_refuted. Qed.
+Theorem C17_clause5_document_type_part_refuted :
+  wf_definitions witness5 = true /\ findings [] witness5 = [[5%nat]] /\ names_distinct [] witness5 = true
+  /\ no_shadow witness5 = true /\ ~ mapper_matches [] witness5.
+Proof. exact clause5_refuted. Qed.
+Theorem C17_clause6_rpc_element_part_refuted :
+  wf_definitions witness6 = true /\ findings [] witness6 = [[6%nat]] /\ names_distinct [] witness6 = true
+  /\ no_shadow witness6 = true /\ ~ mapper_matches [] witness6.
+Proof. exact clause6_refuted. Qed.
+Theorem C17_clause7_rpc_body_parts_refuted :
+  wf_definitions witness7 = true /\ findings [] witness7 = [[7%nat]] /\ names_distinct [] witness7 = true
+  /\ no_shadow witness7 = true /\ ~ mapper_matches [] witness7.
+Proof. exact clause7_refuted. Qed.
+Theorem C17_clause8_duplicate_service_name_refuted :
+  wf_definitions witness8 = true /\ findings [] witness8 = [[]; []] /\ names_distinct [] witness8 = false
+  /\ no_shadow witness8 = true /\ ~ mapper_matches [] witness8.
+Proof. exact clause8_refuted. Qed.
+Theorem C17_clause9_output_header_refuted :
+  wf_definitions witness9 = true /\ findings [] witness9 = [[9%nat]] /\ names_distinct [] witness9 = true
+  /\ no_shadow witness9 = true /\ ~ mapper_matches [] witness9.
+Proof. exact clause9_refuted. Qed.
+Theorem C17_clause10_message_shadows_element_refuted :
+  wf_definitions witness10 = true /\ findings [] witness10 = [[]] /\ names_distinct [] witness10 = true
+  /\ no_shadow witness10 = false /\ ~ mapper_matches [] witness10.
+Proof. exact clause10_refuted. Qed.
+Print Assumptions C17_clause10_message_shadows_element_refuted.
+
+(* the theorem: unbounded over all documents of the fragment that satisfy the ten clauses
+   (any number of services, ports, bindings, operations, parts, headers, faults; document
+   and rpc; parts by element and by type; any prefixes and local namespace declarations) *)
+Theorem C17_mapper_matches_expected : forall te d,
+  wf_definitions d = true -> guard te d = true ->
+  option_map (final_shapes te) (map_definitions d) = Some (expected te d).
+Proof. exact mapper_matches_expected. Qed.
+Print Assumptions C17_mapper_matches_expected.
+
+Theorem C17_generation_succeeds_partial : forall te d,
+  wf_definitions d = true -> guard te d = true -> exists cs, map_definitions d = Some cs.
+Proof. exact generation_succeeds. Qed.
+Print Assumptions C17_generation_succeeds_partial.
+
+(* non-vacuity: three operations over two bindings (rpc and document), a header, faults *)
+Example C17_guard_inhabited :
+  wf_definitions guard_example = true /\ guard [] guard_example = true
+  /\ length (expected [] guard_example) = 3%nat /\ mapper_matches [] guard_example.
+Proof. exact guard_inhabited. Qed.
 
 (* ---- the client ---- *)
 (* content-type text/xml; SOAPAction = the configured action when it is a non-empty string;
